@@ -91,10 +91,18 @@ def statement_oracle(d, p, keyfn, reverse, custom=False):
     sc = p.get_lines()
     segs = seg_list(sc)
     want = []
+
+    def own_values(s):
+        return [float(v) for v in s._values] if getattr(s, '_tree_index', None) is None else [float(v) for v in np.asarray(s.values(subtree=False)).ravel()]
+
+    def height(s):
+        # from the pixel values (not from Structure.height, nor from a file): the faintest own pixel among the
+        # children where the structure branches, its own brightest pixel for a leaf
+        return min(min(own_values(c)) for c in s.children) if s.children else max(own_values(s))
     for s in d:
         x = pos[s]
-        bot = float(s.parent.height) if s.parent is not None else float(s.vmin)
-        top = float(s.height)
+        bot = height(s.parent) if s.parent is not None else min(own_values(s))
+        top = height(s)
         want.append((int(s.idx), (x, bot), (x, top)))
         if s.children:
             pc = [pos[c] for c in s.children]
@@ -137,6 +145,9 @@ def explore(ctx):
     for it in range(n):
         c = dc.tree_rich_case(rng)
         c['crit'] = []
+        if rng.random() < 0.4 and not c.get('den'):
+            # values on a grid of 2**-5 ... 2**-12: not expressible with the three decimals of the Newick text
+            c['scale'] = rng.choice([5, 7, 12])
         try:
             d = impl.run_compute(c)
             kind = 'computed'
